@@ -73,7 +73,9 @@ def run(ctx):
     pool = concurrent.futures.ThreadPoolExecutor(max_workers=5)
     try:
         # ---- design level (+ export of the scenarios)
-        f_mc = pool.submit(ctx.mc, "Histogram", "Histogram_%s.cfg" % tag, coverage=True, must_cover=("Fill", "ElemFill"))
+        f_mc = pool.submit(ctx.mc, "Histogram", "Histogram_%s.cfg" % tag, coverage=True, must_cover=("Fill", "ElemFill", "BadFill"))
+        # two histograms made from the same edges object, filled in turn
+        f_twin = pool.submit(ctx.mc, "Histogram", "Histogram_twin.cfg", coverage=True, must_cover=("Fill", "ElemFill", "BadFill"))
         f_search = pool.submit(hl.mc_export, ctx, "BinSearch", "BinSearch_%s.cfg" % tag,
                                must_cover=SEARCH_ACTIONS, min_records=5000)
         f_fill = pool.submit(ctx.export, "Histogram", "Histogram_export.cfg", min_records=5000)
@@ -111,16 +113,17 @@ def run(ctx):
                 use = embs
             else:
                 use = [embs[(k + j) % len(embs)] for j in range(4)]
-            m = hl.replay_fills(ctx, rec, use, report, tuples=(k % 7 == 0))
+            m = hl.replay_fills(ctx, rec, use, report, tuples=(k % 7 == 0), variant=k)
             ctx.case(["fill", rec], nontrivial=True, traces=m)
         hrecs = f_hist.result()
         for k, rec in enumerate(hrecs):
             use = embs if ctx.thorough else [embs[(k + j) % len(embs)] for j in range(5)]
-            m = hl.replay_fills(ctx, rec, use, report, tuples=(k % 5 == 0))
+            m = hl.replay_fills(ctx, rec, use, report, tuples=(k % 5 == 0), variant=k)
             ctx.case(["history", rec], nontrivial=True, traces=m)
         ctx.sample({"spec_fill": frecs[len(frecs) // 3]})
         ctx.sample({"spec_history": hrecs[len(hrecs) // 2]})
         f_mc.result()
+        f_twin.result()
         f_trace.result()
         if f_apa is not None:
             f_apa.result()
